@@ -25,7 +25,10 @@ InterpAxis(a, d, new) ==
 \* generated templates share exactly one or two dims and the second interpolation is applied to the spec's own
 \* intermediate result only when the first was the identity on that fibre)
 InjSeqs(S, n) == {s \in [1..n -> S] : \A i, j \in 1..n : i # j => s[i] # s[j]}
-Nodes == UNION {InjSeqs(U, n) : n \in 1..Cardinality(U)}
+\* ... plus node lists whose first label is the smallest and whose last is the largest while the middle is shuffled (a
+\* permutation that a "contiguous block" shortcut would mistake for the identity)
+AnchoredNodes == {<<4, 12, 8, 16>>, <<2, 12, 6, 8, 14>>}
+Nodes == UNION {InjSeqs(U, n) : n \in 1..Cardinality(U)} \cup AnchoredNodes
 NewSeqs == UNION {[1..n -> Grid] : n \in 1..MaxNew}
 
 NoIn == [a |-> <<>>, d |-> 0, new |-> <<>>, fills |-> FALSE, issorted |-> FALSE]
@@ -41,7 +44,7 @@ Choose ==
   /\ ph = 0 /\ ph' = 1 /\ out' = out
   /\ \E L \in Nodes : \E nd \in 1..3 : \E p \in 1..3 : \E dt \in {"f", "i"} : \E new \in NewSeqs : \E fl \in BOOLEAN : \E srt \in BOOLEAN :
        /\ p <= nd
-       /\ (nd = 3 => Len(L) = 3 /\ dt = "f" /\ Len(new) = MaxNew)
+       /\ (nd = 3 => Len(L) \in {3, 5} /\ dt = "f" /\ Len(new) = MaxNew)
        /\ (srt => IsInc(L) /\ ~fl)
        /\ in' = [a |-> Arr(L, nd, p, dt), d |-> p, new |-> new, fills |-> fl, issorted |-> srt]
 Apply ==
@@ -54,7 +57,7 @@ Apply ==
 LikeA == Fresh(<<"x", "y">>, <<"i", "i">>, << <<8, 4>>, <<4, 12, 8>> >>, <<1, 2>>, "f", 7, 100)
 ChooseLike ==
   /\ ph = 0 /\ ph' = 3 /\ out' = out
-  /\ \E tx \in {<<>>, <<4, 6>>, <<7, 2, 8>>} : \E ty \in {<<>>, <<6, 12>>, <<14, 4>>} : \E swap \in BOOLEAN : \E extra \in BOOLEAN :
+  /\ \E tx \in {<<>>, <<4, 6>>, <<7, 2, 8>>, <<4, 8>>} : \E ty \in {<<>>, <<6, 12>>, <<14, 4>>} : \E swap \in BOOLEAN : \E extra \in BOOLEAN :
        LET dl == (IF tx = <<>> THEN <<>> ELSE << <<"x", tx>> >>) \o (IF ty = <<>> THEN <<>> ELSE << <<"y", ty>> >>)
                  \o (IF extra THEN << <<"w", <<2, 4>>>> >> ELSE <<>>)
            dl2 == IF swap THEN Rev(dl) ELSE dl
@@ -72,7 +75,7 @@ ApplyLike ==
 \* Every variable that has x equals the DimArray interpolation (InterpAxis), c is unchanged, metadata is carried.
 ChooseDs ==
   /\ ph = 0 /\ ph' = 5 /\ out' = out
-  /\ \E new \in {<<4, 6>>, <<6, 8, 5>>, <<8>>} : \E like \in BOOLEAN : \E bypos \in BOOLEAN :
+  /\ \E new \in {<<4, 6>>, <<6, 8, 5>>, <<8>>, <<4, 8>>} : \E like \in BOOLEAN : \E bypos \in BOOLEAN :
        in' = [NoIn EXCEPT !.a = LikeA, !.new = new, !.d = 1, !.fills = like, !.issorted = bypos]
 ApplyDs ==
   /\ ph = 5 /\ ph' = 6 /\ in' = in
